@@ -371,6 +371,9 @@ def run_shard(rec):
         run_cases(rec, "regression", REGRESSION, lambda c: check(c, rec))
     hyp_run(rec, "cells", cases(20000 if quick else 50000), lambda c: check(c, rec),
             max_examples=130 if quick else 450)
+    # large cells / high d* limits: search boxes of up to 150 000 (400 000) points, processed by the library in one go
+    hyp_run(rec, "cells_bigbox", cases(150000 if quick else 400000), lambda c: check(c, rec),
+            max_examples=5 if quick else 30, shrink=False)
     hyp_run(rec, "ringassign", ringcases(), lambda c: check_ringassign(c, rec), max_examples=60 if quick else 600)
 
 
